@@ -39,6 +39,8 @@ pub struct ICfg {
     /// SpawnDead(A) is offered in every state (true) or only while A has no node (false; the process
     /// that dies is independent of A's own node, this only trims equivalent interleavings)
     pub spawn_anytime: bool,
+    /// A also creates the publish-subscribe flavour of the service (false: event only)
+    pub pubsub: bool,
 }
 
 #[derive(Clone, Copy, Debug, Serialize, Deserialize, PartialEq, Eq, Hash)]
@@ -86,6 +88,7 @@ struct Dom {
 
 pub struct ISys {
     spawn_anytime: bool,
+    pubsub: bool,
     tag: String,
     base: PathBuf,
     doms: [Dom; 2],
@@ -126,8 +129,42 @@ fn make_dom(cfg: DomCfg, tag: &str, base: &StdPath) -> Result<Dom, Fail> {
     Ok(Dom { cfg, prefix, root, config, svc: [None, None], node: None, dead: 0 })
 }
 
+/// A replayed failing execution is abandoned by the engine without running destructors, a killed
+/// worker cannot clean up either: remove what processes that no longer exist left behind.
+fn collect_garbage_of_dead_processes() {
+    static ONCE: std::sync::Once = std::sync::Once::new();
+    ONCE.call_once(|| {
+        let alive = |pid: i32| pid > 0 && (unsafe { libc::kill(pid, 0) } == 0 || std::io::Error::last_os_error().raw_os_error() == Some(libc::EPERM));
+        let mut dead: Vec<i32> = Vec::new();
+        if let Ok(rd) = std::fs::read_dir("/verif/.run") {
+            for e in rd.flatten() {
+                if let Some(pid) = e.file_name().to_str().and_then(|n| n.strip_prefix("h_names-")).and_then(|p| p.parse::<i32>().ok()) {
+                    if !alive(pid) {
+                        let _ = std::fs::remove_dir_all(e.path());
+                        dead.push(pid);
+                    }
+                }
+            }
+        }
+        if let Ok(rd) = std::fs::read_dir("/dev/shm") {
+            for e in rd.flatten() {
+                let name = e.file_name();
+                let Some(n) = name.to_str() else { continue };
+                if let Some(rest) = n.strip_prefix("hn") {
+                    if let Some(pid) = rest.split('x').next().and_then(|p| p.parse::<i32>().ok()) {
+                        if rest[pid.to_string().len()..].starts_with('x') && (dead.contains(&pid) || !alive(pid)) {
+                            let _ = std::fs::remove_file(e.path());
+                        }
+                    }
+                }
+            }
+        }
+    });
+}
+
 pub fn new_sys(cfg: &ICfg) -> Result<ISys, Fail> {
     iceoryx2::prelude::set_log_level(iceoryx2::prelude::LogLevel::Fatal);
+    collect_garbage_of_dead_processes();
     let n = COUNTER.fetch_add(1, Ordering::Relaxed);
     let pid = std::process::id();
     let tag = format!("hn{pid}x{n}_");
@@ -140,7 +177,7 @@ pub fn new_sys(cfg: &ICfg) -> Result<ISys, Fail> {
     std::fs::create_dir_all(&base).map_err(|e| setup_fail("create base", e))?;
     let a = make_dom(cfg.a, &tag, &base)?;
     let b = make_dom(cfg.b, &tag, &base)?;
-    Ok(ISys { spawn_anytime: cfg.spawn_anytime, tag, base, same: cfg.a == cfg.b, doms: [a, b], steps: 0 })
+    Ok(ISys { spawn_anytime: cfg.spawn_anytime, pubsub: cfg.pubsub, tag, base, same: cfg.a == cfg.b, doms: [a, b], steps: 0 })
 }
 
 pub fn enabled(s: &ISys) -> Vec<IOp> {
@@ -152,6 +189,9 @@ pub fn enabled(s: &ISys) -> Vec<IOp> {
         v.push(IOp::CreateNode(Side::A));
     } else {
         for p in [Pat::PubSub, Pat::Event] {
+            if p == Pat::PubSub && !s.pubsub {
+                continue;
+            }
             if a.svc[pidx(p)].is_none() {
                 v.push(IOp::CreateSvc(Side::A, p));
             } else {
@@ -437,7 +477,24 @@ fn spawn_dead(d: &Dom) -> Result<(), Fail> {
     Ok(())
 }
 
+/// Panic messages of the repository dump whole objects (addresses, unique ids); the engine compares
+/// the replay output textually, so only the digit-free end of the message is kept.
+fn stable_panic_message(p: Box<dyn std::any::Any + Send>) -> String {
+    let msg = p.downcast_ref::<&str>().map(|s| s.to_string()).or(p.downcast_ref::<String>().cloned()).unwrap_or_default();
+    let tail = msg.rsplit("} ").next().unwrap_or(&msg).to_string();
+    let mut out: String = tail.chars().filter(|c| !c.is_ascii_digit()).collect();
+    out.truncate(300);
+    out
+}
+
 pub fn apply(s: &mut ISys, op: &IOp) -> Result<(), Fail> {
+    match std::panic::catch_unwind(std::panic::AssertUnwindSafe(|| apply_inner(s, op))) {
+        Ok(r) => r,
+        Err(p) => Err(Fail::new("panic", format!("{op:?}").split('(').next().unwrap_or("").to_string(), stable_panic_message(p))),
+    }
+}
+
+fn apply_inner(s: &mut ISys, op: &IOp) -> Result<(), Fail> {
     s.steps += 1;
     let before = snapshot(s);
     let what;
